@@ -74,7 +74,7 @@ def check_aborted(ctx):
         raise Broken("scenario aborted without a detected violation: %s" % ctx.aborted[0][:500])
 
 
-def validate_trace(ctx, tag, tr, timeout=1500):
+def validate_trace(ctx, tag, tr, timeout=3600):
     """TLC validates the implementation trace against ZoneChainTrace.tla.  Returns (ok, mismatch tuple or None)."""
     t = vlib.tlc(ctx, "ZoneChainTrace", "ZoneChainTrace.cfg", workers=1, timeout=timeout, tag="ZCTrace-" + tag,
                  files={"zctrace.ndjson": Path(tr).read_text()})
